@@ -1,6 +1,9 @@
 package main
 
 import (
+	"sort"
+	"net/http"
+	"encoding/json"
 	"bytes"
 	"net/http/httptest"
 	"fmt"
@@ -388,6 +391,7 @@ func runC16(cfg *config) *Report {
 	}
 	rep.Evaluations = evals
 	evals += uploadFragmentation(cfg, rep, r)
+	evals += afterCutUploads(rep, r, "C16")
 	rep.Evaluations = evals
 	return rep
 }
@@ -415,6 +419,131 @@ func (f *fragReader) Read(p []byte) (int, error) {
 }
 
 func (f *fragReader) Close() error { return nil }
+
+// cutReader delivers the first n bytes of a body and then fails the way a connection does when the client goes away
+type cutReader struct {
+	b []byte
+	n int
+}
+
+func (c *cutReader) Read(p []byte) (int, error) {
+	if c.n <= 0 {
+		return 0, io.ErrUnexpectedEOF
+	}
+	k := len(p)
+	if k > c.n {
+		k = c.n
+	}
+	if k > len(c.b) {
+		k = len(c.b)
+	}
+	copy(p, c.b[:k])
+	c.b = c.b[k:]
+	c.n -= k
+	if k == 0 {
+		return 0, io.ErrUnexpectedEOF
+	}
+	return k, nil
+}
+
+func (c *cutReader) Close() error { return nil }
+
+// afterCutUploads: on ONE server, uploads whose body breaks off part-way (the client announced more than it sent) are
+// followed by ordinary requests - valid uploads and malformed ones; every request behind a broken upload must be
+// answered, and leave the store, exactly as on a server that never saw the broken upload
+func afterCutUploads(rep *Report, r rng, prop string) int {
+	n := 0
+	f, err := genFile(r, genOpts{maxCL: 1, maxBundles: 1, maxItems: 2, mutateP: 30})
+	if err != nil {
+		return 0
+	}
+	js, _ := json.Marshal(f)
+	lpE, _, _ := realWrite(f, encCfg{true, true})
+	lpA, _, _ := realWrite(f, encCfg{true, false})
+	serve := func(router http.Handler, q *apiReq, cut int) int {
+		req, err := q.build("http://verif.local")
+		if err != nil {
+			return -1
+		}
+		body, _ := io.ReadAll(req.Body)
+		if cut >= 0 {
+			req.Body = &cutReader{b: body, n: cut}
+		} else {
+			req.Body = &fragReader{b: body}
+		}
+		req.ContentLength = int64(len(body))
+		rec := httptest.NewRecorder()
+		func() {
+			defer func() {
+				if p := recover(); p != nil {
+					rec.Code = 599
+				}
+			}()
+			router.ServeHTTP(rec, req)
+		}()
+		return rec.Code
+	}
+	dumpStore := func(repo verifhooks.Repo) string {
+		out := ""
+		if fs, err := repo.GetFiles(); err == nil {
+			var ds []string
+			for _, sf := range fs {
+				g := *sf
+				g.ID = ""
+				ds = append(ds, exportedOnly(dumpFile(&g)))
+			}
+			sort.Strings(ds)
+			out = strings.Join(ds, ";")
+		}
+		return out
+	}
+	uploads := []*apiReq{
+		{Kind: "c2", CT: "application/json", Body: js},
+		{Kind: "c1", CT: "application/json", Body: js},
+		{Kind: "c1", CT: "application/octet-stream", Body: lpE},
+		{Kind: "c2", CT: "multipart/form-data", Multipart: "file:application/octet-stream", Body: lpE},
+		{Kind: "c2", CT: "multipart/form-data", Multipart: "file:text/plain", Body: lpA},
+	}
+	followers := append([]*apiReq{
+		{Kind: "c2", CT: "application/json", Body: []byte("}{ not json")},
+		{Kind: "c2", CT: "application/json", Body: []byte{}},
+		{Kind: "c1", CT: "application/json", Body: []byte("[1,2")},
+		{Kind: "c1", CT: "application/octet-stream", Body: []byte("garbage that is no X9 file")},
+		{Kind: "c2", CT: "application/json", Body: js[len(js)/2:]},
+		{Kind: "c1", CT: "application/octet-stream", Body: lpE[len(lpE)/2:]},
+	}, uploads...)
+	for ui, up := range uploads {
+		for _, cut := range []int{1, len(up.Body) / 2, len(up.Body) - 1, len(up.Body)} {
+			for fi, fo := range followers {
+				// reference: the follower alone on a fresh server
+				repoRef := verifhooks.NewInMemoryRepo()
+				wantCode := serve(verifhooks.NewRouter(repoRef), fo, -1)
+				wantStore := dumpStore(repoRef)
+				// the follower behind the broken upload (and behind a second broken upload of the same kind)
+				repo := verifhooks.NewInMemoryRepo()
+				router := verifhooks.NewRouter(repo)
+				c1 := serve(router, up, cut)
+				c1b := serve(router, up, cut)
+				gotCode := serve(router, fo, -1)
+				gotStore := dumpStore(repo)
+				n++
+				rep.count(fmt.Sprintf("after-cut-upload:%s:%d", up.Kind, gotCode))
+				if c1 >= 200 && c1 < 300 && cut < len(up.Body) {
+					rep.violate(Violation{Key: prop + ":cut-upload-accepted:" + up.Kind, What: fmt.Sprintf("an upload whose body broke off after %d of %d bytes was answered %d", cut, len(up.Body), c1),
+						Replay: map[string]any{"upload": ui, "kind": up.Kind, "content_type": up.CT, "multipart": up.Multipart, "cut": cut, "status": c1}})
+					break
+				}
+				_ = c1b
+				if gotCode != wantCode || gotStore != wantStore {
+					rep.violate(Violation{Key: prop + ":request-behind-a-broken-upload:" + up.Kind + ":" + fo.Kind, What: fmt.Sprintf("a %s request is answered %d (alone: %d) / leaves a different store when it follows a %s upload whose body broke off after %d bytes", fo.Kind, gotCode, wantCode, up.Kind, cut),
+						Replay: map[string]any{"upload_kind": up.Kind, "upload_content_type": up.CT, "upload_multipart": up.Multipart, "cut": cut, "follower": fi, "follower_kind": fo.Kind, "follower_content_type": fo.CT, "follower_body": hx(fo.Body[:min(200, len(fo.Body))]), "status_alone": wantCode, "status_behind": gotCode, "store_same": gotStore == wantStore}})
+					break
+				}
+			}
+		}
+	}
+	return n
+}
 
 // uploadFragmentation: the same upload through the server's own reader front ends (POST /v2/files as a multipart form
 // and as a raw body, POST /files/create as a raw body), with the request body arriving whole and in fragments of 1, 2, 3,
